@@ -116,6 +116,20 @@ fn check_u_inner(v: u64, prev: Option<u64>, rep: &mut Report) {
                 if px.cmp(&x) != p.cmp(&v) || px.partial_cmp(&v) != Some(p.cmp(&v)) || (px == x) != (p == v) {
                     viol(rep, "U53", "ord", "disagrees-with-integers", format!("{p} vs {v}"));
                 }
+                // what is derived from the order, as users write it (method-call syntax: an inherent method of that name
+                // would be the one called): min, max, clamp, sorting
+                if u64::from(px.min(x)) != p.min(v) || u64::from(px.max(x)) != p.max(v) || u64::from(x.min(px)) != v.min(p) || u64::from(x.max(px)) != v.max(p) {
+                    viol(rep, "U53", "ord-min-max", "disagrees-with-integers", format!("{p} vs {v}"));
+                }
+                let (lo, hi) = (Ord::min(px, x), Ord::max(px, x));
+                if u64::from(U53::MAX.clamp(lo, hi)) != u64::from(U53::MAX).clamp(p.min(v), p.max(v)) || u64::from(U53::MIN.clamp(lo, hi)) != u64::from(U53::MIN).clamp(p.min(v), p.max(v)) {
+                    viol(rep, "U53", "ord-clamp", "disagrees-with-integers", format!("{p} vs {v}"));
+                }
+                let mut pair = [px, x, px];
+                pair.sort();
+                if u64::from(pair[0]) != p.min(v) || u64::from(pair[2]) != p.max(v) {
+                    viol(rep, "U53", "ord-sort", "disagrees-with-integers", format!("{p} vs {v}"));
+                }
                 rep.count("order_pairs", 1);
             }
         }
@@ -201,6 +215,20 @@ fn check_i_inner(v: i64, prev: Option<i64>, rep: &mut Report) {
             if let Ok(px) = I54::try_from(p) {
                 if px.cmp(&x) != p.cmp(&v) || px.partial_cmp(&v) != Some(p.cmp(&v)) || (px == x) != (p == v) {
                     viol(rep, "I54", "ord", "disagrees-with-integers", format!("{p} vs {v}"));
+                }
+                // what is derived from the order, as users write it (method-call syntax: an inherent method of that name
+                // would be the one called): min, max, clamp, sorting
+                if i64::from(px.min(x)) != p.min(v) || i64::from(px.max(x)) != p.max(v) || i64::from(x.min(px)) != v.min(p) || i64::from(x.max(px)) != v.max(p) {
+                    viol(rep, "I54", "ord-min-max", "disagrees-with-integers", format!("{p} vs {v}"));
+                }
+                let (lo, hi) = (Ord::min(px, x), Ord::max(px, x));
+                if i64::from(I54::MAX.clamp(lo, hi)) != i64::from(I54::MAX).clamp(p.min(v), p.max(v)) || i64::from(I54::MIN.clamp(lo, hi)) != i64::from(I54::MIN).clamp(p.min(v), p.max(v)) {
+                    viol(rep, "I54", "ord-clamp", "disagrees-with-integers", format!("{p} vs {v}"));
+                }
+                let mut pair = [px, x, px];
+                pair.sort();
+                if i64::from(pair[0]) != p.min(v) || i64::from(pair[2]) != p.max(v) {
+                    viol(rep, "I54", "ord-sort", "disagrees-with-integers", format!("{p} vs {v}"));
                 }
                 rep.count("order_pairs", 1);
             }
@@ -443,7 +471,7 @@ pub fn run(ctx: &Ctx) -> (Spec, Report) {
     let spec = Spec {
         level: "exploration",
         rule: format!(
-            "every u64/i64 within 2^12 of 0, ±2^k (k=0..63), ±(2^53-1), the 64-bit extremes — exhaustive — plus {draws} seeded draws stratified by bit length; each value goes through TryFrom, serde_json literal parsing (as its own type, as the other type - so that unsigned literals above i64::MAX reach I54 - and nested in a map of lists; 51 boundary values also in the positions where serde buffers before typing - flattened struct, adjacently / internally tagged payload, untagged variant), conversion back, JSON and f64 round trips, narrowing, ordering against the previous value, and mixed comparisons (==, <, >, <=, >=, partial_cmp) of nine in-range anchors with the raw value whether it is in range or not; a cell is distinct by (type, operation, sign, bit length, expected accept/reject)"
+            "every u64/i64 within 2^12 of 0, ±2^k (k=0..63), ±(2^53-1), the 64-bit extremes — exhaustive — plus {draws} seeded draws stratified by bit length; each value goes through TryFrom, serde_json literal parsing (as its own type, as the other type - so that unsigned literals above i64::MAX reach I54 - and nested in a map of lists; 51 boundary values also in the positions where serde buffers before typing - flattened struct, adjacently / internally tagged payload, untagged variant), conversion back, JSON and f64 round trips, narrowing, ordering against the previous value (cmp, partial_cmp, ==, and min / max / clamp / sort in method-call syntax), and mixed comparisons (==, <, >, <=, >=, partial_cmp) of nine in-range anchors with the raw value whether it is in range or not; a cell is distinct by (type, operation, sign, bit length, expected accept/reject)"
         ),
         assumptions: vec![
             "the typeshare crate is linked from VERIF_REPO/lib with release semantics (no overflow checks)".into(),
